@@ -362,7 +362,7 @@ class Automata(object):
             return
 
         match = dfa.next_valid_string(term)
-        while match:
+        while match is not None:
             cur.find(match)
             term = cur.text()
             if term is None:
